@@ -4,7 +4,7 @@ Correspondence: model coq/theories/Bvll.v vs bvll.py / bvllservice.AnnexJCodec /
 the octets taken *below* AnnexJCodec (a recording Server bound under the codec) and the decoded
 message objects taken above it (a recording Client).  Direct: an implementation-only predicate
 against an independent transcription of Annex J.2 (layout, length field, round trip, refusals)."""
-import itertools
+import itertools, random
 from core import Case, nlist
 from pyerr import canon_call, exc_code
 
@@ -18,7 +18,9 @@ RULE = ('cases: each of the 12 functions encoded through AnnexJCodec.indication 
         'None/absent fields, addresses of the wrong length, tables changed after construction); every produced frame decoded '
         'through AnnexJCodec.confirmation, plus mutations of it (type octet, function octet, length field, truncation, extension, '
         'random octet); every function code 0..255 x several bodies with a consistent header; all 1-octet strings, grids of '
-        '2..4-octet strings; random strings.  non-trivial = an encode of a message with >= 1 parameter octet or a refusal '
+        '2..4-octet strings; random strings; tables naming one station several times under different masks / TTLs; histories of 2..6 '
+        'decodes/encodes on one codec (stations recurring with other masks, one NPDU forwarded for several originators, repeated '
+        'tables, messages constructed without arguments) whose decoded messages are inspected after the whole history.  non-trivial = an encode of a message with >= 1 parameter octet or a refusal '
         'with a reason, a decode that delivers a message or refuses after reading >= 1 octet; distinct by (operation, input).')
 TRUSTED = ['model coq/theories/Bvll.v written by hand after bvll.py:58-123,168-700, bvllservice.py:286-317 (with the fix: commit), '
            'pdu.py Address tuple form / unpack_ip_addr; tie = in-kernel correspondence',
@@ -200,6 +202,62 @@ def decode_obj(octets):
 
 def impl_decode(octets):
     return canon_call(lambda: decode_obj(octets), lambda r: [r.bvlciFunction, r.bvlciLength] + canon_obj(r))
+
+
+def op_msg(op):
+    return DEFAULT_MSG[op[1]] if op[0] == 'encdef' else op[1]
+
+
+def run_history(ops):
+    """run the ops one after the other on the one codec of this process; returns per op
+    ('dec', object or None, error code or None, snapshot taken right after the decode) / ('enc', canonical result)"""
+    from bacpypes import bvll
+    res = []
+    for op in ops:
+        if op[0] == 'dec':
+            octets = spec_frame(op[1])
+            try:
+                obj = decode_obj(octets)
+                res.append(('dec', obj, None, [obj.bvlciFunction, obj.bvlciLength] + canon_obj(obj)))
+            except Exception as e:
+                res.append(('dec', None, exc_code(e), None))
+        elif op[0] == 'enc':
+            res.append(('enc', impl_encode(op[1])))
+        else:
+            def f(kind=op[1]):
+                u, c, d = stack()
+                u.request(getattr(bvll, CLASS_OF[kind])())
+                assert len(d.got) == 1
+                return d.got[0].pduData
+            res.append(('enc', canon_call(f, list)))
+    return res
+
+
+def impl_history(ops):
+    out = []
+    for r in run_history(ops):          # decoded objects are canonicalised only now, after the whole history
+        if r[0] == 'enc':
+            c = r[1]
+        elif r[1] is None:
+            c = [1, r[2]]
+        else:
+            c = [0, r[1].bvlciFunction, r[1].bvlciLength] + canon_obj(r[1])
+        out += [len(c)] + c
+    return out
+
+
+def coq_hop(op):
+    if op[0] == 'dec':
+        return '(HDec %s)' % nlist(spec_frame(op[1]))
+    m = op_msg(op)
+    return '(HEnc %s %s)' % (coq_constructions(m), coq_msg(m))
+
+
+def case_history(ops):
+    exp = impl_history(ops)
+    return Case('history', 'canon_history [%s]' % ';'.join(coq_hop(op) for op in ops), exp, key=('hist', repr(ops)),
+                nontrivial=len(ops) >= 2, desc={'op': 'history', 'ops': [[op[0], jdesc(op[1])] for op in ops],
+                                                 'ops_repr': repr(ops)})
 
 
 # ------------------------------------------------------------------ Coq terms
@@ -407,6 +465,94 @@ def mutations(rng, bs, n):
 
 
 KINDS = list(CODES)
+
+
+def g_pool(rng, n=3):
+    """a few stations that recur (same six octets) across the entries / frames of one scenario"""
+    return [['ip', g_ip(rng), rng.choice([47808, 47808, 47809, rng.choice(PORTS_OK)])] for _ in range(n)]
+
+
+def distinct_masks(rng, n):
+    ms = []
+    while len(ms) < n:
+        m = rng.choice(MASKS_OK + [(0xFFFFFFFF << k) & 0xFFFFFFFF for k in (8, 16, 24)])
+        if m not in ms or len(ms) >= 10:
+            ms.append(m)
+    return ms
+
+
+def g_rep_table(rng, kind, pool, n):
+    """a table whose entries draw their address from `pool` (repeats as soon as n > len(pool)), every entry of
+    one address with a different mask (BDT) or a different TTL / remaining time (FDT)"""
+    entries = []
+    used = {}
+    for i in range(n):
+        a = rng.choice(pool) if i >= 2 else pool[0]        # the first two entries always share an address
+        j = used.setdefault(repr(a), 0)
+        used[repr(a)] += 1
+        if kind == 'rfdtack':
+            entries.append([a, (30 + 7 * j + rng.randrange(5) * 100) & 0xFFFF, (35 + 11 * j + rng.randrange(5) * 50) & 0xFFFF])
+        elif rng.random() < 0.3:
+            entries.append([['ipmask', a[1], (32 - 8 * j) % 33, a[2]], None])
+        else:
+            entries.append([a, distinct_masks(rng, j + 1)[j]])
+    rng.shuffle(entries) if rng.random() < 0.5 else None
+    return [kind, entries]
+
+
+DEFAULT_MSG = {'result': ['result', None], 'wbdt': ['wbdt', []], 'rbdt': ['rbdt'], 'rbdtack': ['rbdtack', []],
+               'fwd': ['fwd', ['none'], b''], 'regfd': ['regfd', None], 'rfdt': ['rfdt'], 'rfdtack': ['rfdtack', []],
+               'delfdt': ['delfdt', ['none']], 'dist': ['dist', b''], 'ouni': ['ouni', b''], 'obcast': ['obcast', b'']}
+
+
+def g_history(rng):
+    """ops of one history: ['dec', msg] (the Annex J frame of msg is received), ['enc', msg], ['encdef', kind]
+    (a message constructed without arguments is sent).  The same stations recur with different masks / TTLs, the
+    same NPDU is forwarded for different originators, tables are repeated unchanged."""
+    pool = g_pool(rng, rng.choice([1, 2, 3]))
+    ops = []
+    payload = g_payload(rng, rng.randrange(1, 12))
+    for _ in range(rng.choice([2, 3, 3, 4, 5, 6])):
+        how = rng.randrange(10)
+        if how < 4:
+            k = rng.choice(['wbdt', 'rbdtack', 'wbdt', 'rbdtack', 'rfdtack'])
+            ops.append(['dec', g_rep_table(rng, k, pool, rng.choice([1, 2, 2, 3, 4, 6]))])
+        elif how == 4 and ops:
+            ops.append(list(rng.choice(ops)))                                   # the same thing again, unchanged
+        elif how == 5:
+            ops.append([rng.choice(['dec', 'enc']), ['fwd', rng.choice(pool), payload]])   # same NPDU, varying originator
+        elif how == 6:
+            ops.append(['encdef', rng.choice(['wbdt', 'rbdtack', 'rfdtack', 'rfdtack', 'dist', 'rbdt'])])
+        elif how == 7:
+            k = rng.choice(['wbdt', 'rbdtack', 'rfdtack'])
+            ops.append(['enc', g_rep_table(rng, k, pool, rng.choice([1, 2, 3]))])
+        elif how == 8:
+            ops.append(['dec', ['delfdt', rng.choice(pool)]])
+        else:
+            ops.append(['dec', g_msg(rng, rng.choice(KINDS), True, rng.randrange(4))])
+    return ops
+
+
+def histories(rng, tier):
+    out = []
+    # fixed shapes first: one station under two masks in two frames (both orders, both classes), twice in one table,
+    # a table repeated unchanged, FDT polled twice, default-constructed messages after decodes
+    a, b = ['ip', [192, 168, 1, 1], 47808], ['ip', [10, 0, 0, 1], 47809]
+    for k1 in ('wbdt', 'rbdtack'):
+        for k2 in ('wbdt', 'rbdtack'):
+            out.append([['dec', [k1, [[a, 0xFFFFFFFF], [b, 0xFFFFFFFF]]]], ['dec', [k2, [[a, 0xFFFFFF00], [b, 0xFF000000]]]]])
+            out.append([['dec', [k1, [[a, 0xFFFFFF00]]]], ['enc', [k2, [[a, 0xFFFF0000]]]], ['dec', [k2, [[a, 0xFFFFFFFF]]]],
+                        ['encdef', k1], ['dec', [k1, [[a, 0xFFFFFF00]]]]])
+        out.append([['dec', [k1, [[a, 0xFFFFFF00], [b, 0xFFFFFFFF], [a, 0xFFFFFFFF]]]]])
+        out.append([['dec', [k1, [[a, 0xFFFFFF00], [b, 0]]]], ['dec', [k1, [[a, 0xFFFFFF00], [b, 0]]]]])
+    out.append([['dec', ['rfdtack', [[a, 30, 35], [b, 60, 5]]]], ['dec', ['rfdtack', [[a, 30, 20], [a, 900, 900]]]],
+                ['encdef', 'rfdtack'], ['dec', ['rfdtack', []]], ['encdef', 'rfdtack']])
+    out.append([['enc', ['fwd', a, b'\x01\x20\xff\xff\x00\xff\x10\x08']], ['enc', ['fwd', b, b'\x01\x20\xff\xff\x00\xff\x10\x08']],
+                ['dec', ['fwd', a, b'\x01\x20\xff\xff\x00\xff\x10\x08']], ['dec', ['fwd', b, b'\x01\x20\xff\xff\x00\xff\x10\x08']]])
+    out.append([['encdef', k] for k in KINDS])
+    for _ in range(1500 if tier == 'thorough' else 300):
+        out.append(g_history(rng))
+    return out
 TABLE_KINDS = ['wbdt', 'rbdtack', 'rfdtack']
 NPDU_KINDS = ['fwd', 'dist', 'ouni', 'obcast']
 
@@ -444,6 +590,10 @@ def valid_specs(rng, tier):
             out.append(['rfdtack', [[g_addr(rng), t, r]]])
     for _ in range(600 if big else 60):
         out.append(g_msg(rng, rng.choice(KINDS), True))
+    # the same station listed more than once under different masks / TTLs / remaining times
+    for k in TABLE_KINDS:
+        for n in (2, 2, 3, 3, 4, 5, 8, 40) + ((6, 7, 12, 20, 33) if big else ()):
+            out.append(g_rep_table(rng, k, g_pool(rng, rng.choice([1, 2, 3])), n))
     return out
 
 
@@ -515,6 +665,8 @@ def cases(rng, tier):
             frames.append(bytes(c.expected[1:]))
     for ctor, fin in stale_pairs(rng):
         out.append(case_enc(fin, 'enc-stale', ctor=ctor))
+    for ops in histories(rng, tier):
+        out.append(case_history(ops))
     # one frame at the 16-bit boundary of the length field (outside the property's domain; pins the wrap)
     for k, con, n in (('ouni', 'OrigUnicast', 65531), ('obcast', 'OrigBroadcast', 65532), ('dist', 'Distribute', 65536 + 7)):
         exp = impl_encode([k, bytes(n)])
@@ -605,6 +757,12 @@ def spec_params(m):
     elif k == 'delfdt': out += ad(m[1])
     elif k in ('dist', 'ouni', 'obcast'): out += [len(m[1])] + list(m[1])
     return out
+
+
+def random_copy(rng):
+    r = random.Random()
+    r.setstate(rng.getstate())
+    return r
 
 
 def try_decode(octets):
@@ -710,6 +868,32 @@ def direct(rng, tier, focus=()):
         elif bs != spec_frame(fin):
             fail('layout', msg=jdesc(fin), ctor=jdesc(ctor), octets=bs.hex()[:400], want=spec_frame(fin).hex()[:400])
         nontriv.add(('stale', repr(ctor), repr(fin)))
+
+    # 1c. histories in one process: every frame still round-trips, and a decoded message does not change afterwards
+    #     (it is compared with what was sent both right after its decode and again after the whole history)
+    for ops in histories(rng, tier) + (histories(rng, tier) if big else []):
+        stats['evaluations'] += 1
+        nontriv.add(('history', repr(ops)))
+        rs = run_history(ops)
+        for i, (op, r) in enumerate(zip(ops, rs)):
+            m = op_msg(op)
+            if op[0] == 'dec':
+                want = [CODES[m[0]], len(spec_frame(m))] + spec_params(m)
+                if r[1] is None:
+                    fail('history-frame-refused', step=i, ops_repr=repr(ops), ops=[[o[0], jdesc(o[1])] for o in ops], octets=spec_frame(m).hex()[:400])
+                    continue
+                if r[3] != want:
+                    fail('history-roundtrip-differs', step=i, ops_repr=repr(ops), ops=[[o[0], jdesc(o[1])] for o in ops], got=r[3][:80], want=want[:80])
+                later = [r[1].bvlciFunction, r[1].bvlciLength] + canon_obj(r[1])
+                if later != r[3]:
+                    fail('decoded-message-changed-afterwards', step=i, ops_repr=repr(ops), ops=[[o[0], jdesc(o[1])] for o in ops],
+                         right_after_decode=r[3][:80], after_history=later[:80])
+            else:
+                in_domain = op[0] == 'enc' or op[1] in ('wbdt', 'rbdt', 'rbdtack', 'rfdt', 'rfdtack', 'dist', 'ouni', 'obcast')
+                if in_domain and r[1] != [0] + list(spec_frame(m)):
+                    fail('history-encode-differs', step=i, ops_repr=repr(ops), ops=[[o[0], jdesc(o[1])] for o in ops], got=r[1][:80],
+                         want=list(spec_frame(m))[:80])
+    samples.append({'direct': 'history', 'ops': [[o[0], jdesc(o[1])] for o in histories(random_copy(rng), tier)[0]]})
 
     # 2. refusals: type octet, length field, datagram length
     uniq = sorted(set(frames), key=lambda b: (len(b), b))
@@ -833,6 +1017,22 @@ def replay(payload):
                 f = b['minimal_case'].get('desc')
     print('replay', f)
     if not isinstance(f, dict):
+        return
+    if 'ops_repr' in f:
+        import ast
+        ops = ast.literal_eval(f['ops_repr'])
+        rs = run_history(ops)
+        for i, (op, r) in enumerate(zip(ops, rs)):
+            if op[0] == 'dec':
+                m = op_msg(op)
+                print('step %d decode %s' % (i, spec_frame(m).hex()[:120]))
+                print('   sent                 :', [CODES[m[0]], len(spec_frame(m))] + spec_params(m))
+                print('   right after decode   :', r[3] if r[1] is not None else ['refused', r[2]])
+                if r[1] is not None:
+                    print('   after the history    :', [r[1].bvlciFunction, r[1].bvlciLength] + canon_obj(r[1]))
+            else:
+                print('step %d %s %s -> %s' % (i, op[0], jdesc(op[1]), r[1][:60]))
+        print('model (canon_history):', core.coq_eval(COQ_IMPORTS, 'canon_history [%s]' % ';'.join(coq_hop(op) for op in ops))[0])
         return
     if 'octets' in f and '...' not in f['octets']:
         bs = bytes.fromhex(f['octets'])
